@@ -221,7 +221,7 @@ func checkC04(c *core.Ctx) {
 		}
 	}
 	// R2d: skipping unknown fields on the stream path is Drain's job
-	iohelpDrain(c, gr.p, "R2d")
+	iohelpDrain(c, gr.p, "R2d", false)
 	gr.sample(3)
 }
 
@@ -287,7 +287,7 @@ func checkC06(c *core.Ctx) {
 	iohelpStaleReads(c, gr.p, "R3")
 	iohelpLatchRules(c, gr.p, "R3l", "R3a", "R3d", "-")
 	dropRules(c, "-")
-	iohelpDrain(c, gr.p, "R5")
+	iohelpDrain(c, gr.p, "R5", true)
 	gr.sample(2)
 }
 
@@ -335,7 +335,7 @@ func checkC07(c *core.Ctx) {
 	}
 	iohelpNoPanic(c, gr.p, "R4")
 	iohelpCheckedStrings(c, gr.p, "R0s")
-	iohelpDrain(c, gr.p, "R3d")
+	iohelpDrain(c, gr.p, "R3d", false)
 	gr.sample(2)
 }
 
